@@ -1,1 +1,298 @@
-(* Properties/C13.v — in progress *)
+(* Properties/C13.v — XDR, RPC and record-marking codecs are exact and bounded.
+   Only statements closed by [exact lemma], non-vacuity Examples and Print Assumptions live here.
+
+   Reading guide.  A decoder maps the remaining stream to (result, rest of the stream, trace); the trace lists
+   the input-dependent buffers the Go code allocates, in order ([Rd n]: make([]byte,n) filled from the reader,
+   [Al n]: another allocation of n bytes) -- see Model/Xdr.v.  All limits are the guards of the current Go
+   source (Gen/Facts.v); C13_facts pins them to the documented values.
+   Every theorem is closed and quantifies over all values / all byte strings / all fragmentations. *)
+From Coq Require Import List NArith ZArith Bool.
+From Verif Require Import Gen.Facts Model.Bytes Model.Xdr Model.Rpc Model.RecordMark.
+From Verif Require Import Proofs.BytesProofs Proofs.XdrProofs Proofs.RpcProofs Proofs.RecordMarkProofs.
+Import ListNotations.
+Open Scope N_scope.
+
+(* ---- the documented limits are the ones the guards of the source use ---- *)
+Theorem C13_facts :
+  ((c_MAX_XDR_STRING_LENGTH =? 8192) && (f_string_limit =? c_MAX_XDR_STRING_LENGTH) &&
+   (f_authsys_name_limit =? c_MAX_XDR_STRING_LENGTH) &&
+   (c_MAX_RPC_AUTH_LENGTH =? 400) && (f_cred_limit =? c_MAX_RPC_AUTH_LENGTH) && (f_verf_limit =? c_MAX_RPC_AUTH_LENGTH) &&
+   (f_fh_max_len =? 64) && (f_fh_len =? 8) && (f_fh_enc_len =? 8) &&
+   (f_authsys_max_gids =? 16) &&
+   (c_DefaultMaxRecordSize =? 1048576) && (f_reader_default_max =? c_DefaultMaxRecordSize) &&
+   (f_reader_fallback_max =? c_DefaultMaxRecordSize) &&
+   (c_LastFragmentFlag =? 2147483648) && (c_MaxFragmentSize =? 2147483647) &&
+   (c_DefaultMaxFragmentSize =? 1048576) && (f_writer_default_frag =? c_DefaultMaxFragmentSize) &&
+   (f_writer_fallback_frag =? c_DefaultMaxFragmentSize) && (f_writer_frag_cap =? c_MaxFragmentSize) &&
+   (c_RPC_CALL =? 0) && (c_RPC_REPLY =? 1) && (c_MSG_ACCEPTED =? 0) && (c_SUCCESS =? 0) &&
+   (c_PROG_MISMATCH =? 2) && (c_AUTH_ERROR =? 1) && (c_AUTH_SYS =? 1))%Z = true.
+Proof. vm_compute. reflexivity. Qed.
+
+(* ======================= round trips: decode (encode v ++ rest) = (v, rest) ======================= *)
+
+Theorem C13_u32_roundtrip : forall v rest, v < 4294967296 ->
+  dec_u32 (enc_u32 v ++ rest) = (Ok v, rest, [Rd 4]) /\ len (enc_u32 v) = 4.
+Proof. exact u32_roundtrip_lemma. Qed.
+
+Theorem C13_u64_roundtrip : forall v rest, v < 18446744073709551616 ->
+  dec_u64 (enc_u64 v ++ rest) = (Ok v, rest, [Rd 8]) /\ len (enc_u64 v) = 8.
+Proof. exact u64_roundtrip_lemma. Qed.
+
+(* variable-length opaque with any limit (the credential / verifier shape): exactly 4 + n + pad bytes *)
+Theorem C13_opaque_roundtrip : forall limit b rest, len b <= limit -> len b < 4294967296 ->
+  dec_opaque limit (enc_opaque b ++ rest) = (Ok b, rest, opaque_trace (len b)) /\
+  len (enc_opaque b) = 4 + len b + pad_len (len b) /\ len (enc_opaque b) mod 4 = 0.
+Proof. exact opaque_roundtrip_lemma. Qed.
+
+(* strings up to the limit: NUL-free ones come back, ones with a NUL byte are consumed entirely and then
+   rejected (what xdrDecodeString does); in both cases exactly the padded length is consumed *)
+Theorem C13_string_roundtrip : forall b rest, len b <= string_limit ->
+  dec_string (enc_string b ++ rest) =
+    ((if has_byte 0 b then Err ENul else Ok b), rest, opaque_trace (len b)) /\
+  len (enc_string b) = 4 + len b + pad_len (len b) /\ len (enc_string b) mod 4 = 0.
+Proof. exact string_roundtrip_lemma. Qed.
+
+Theorem C13_fh_roundtrip : forall h rest, h < 18446744073709551616 ->
+  dec_fh (enc_fh h ++ rest) = (Ok h, rest, [Rd 4; Rd 8]) /\ len (enc_fh h) = 12.
+Proof. exact fh_roundtrip_lemma. Qed.
+
+(* RPC call header: what follows the verifier (the procedure arguments) is left untouched *)
+Theorem C13_call_roundtrip : forall c rest, call_ok c ->
+  dec_call (enc_call c ++ rest) = (Ok c, rest, call_trace c) /\ len (enc_call c) mod 4 = 0.
+Proof. exact call_roundtrip_lemma. Qed.
+
+(* AUTH_SYS body: bytes after the last gid are ignored (ParseAuthSysCredential reads a slice) *)
+Theorem C13_authsys_roundtrip : forall a rest, authsys_ok a ->
+  parse_authsys (enc_authsys a ++ rest) = (Ok a, rest, authsys_trace a).
+Proof. exact authsys_roundtrip_lemma. Qed.
+
+(* EncodeRPCReply read back as an RFC 1831 reply header; the results follow *)
+Theorem C13_reply_roundtrip : forall r rest, reply_ok r ->
+  dec_ok (dec_reply (enc_reply r ++ rest)) = Some (reply_head r, reply_results r ++ rest).
+Proof. exact dec_reply_enc. Qed.
+
+(* truncation at EVERY cut point of an encoding is an error that exhausts the stream *)
+Theorem C13_truncated :
+  (forall v k, v < 4294967296 -> k < len (enc_u32 v) ->
+     exists t, dec_u32 (take k (enc_u32 v)) = (Err EShort, [], t)) /\
+  (forall v k, v < 18446744073709551616 -> k < len (enc_u64 v) ->
+     exists t, dec_u64 (take k (enc_u64 v)) = (Err EShort, [], t)) /\
+  (forall limit b k, len b <= limit -> len b < 4294967296 -> k < len (enc_opaque b) ->
+     exists t, dec_opaque limit (take k (enc_opaque b)) = (Err EShort, [], t)) /\
+  (forall b k, len b <= string_limit -> has_byte 0 b = false -> k < len (enc_string b) ->
+     exists t, dec_string (take k (enc_string b)) = (Err EShort, [], t)) /\
+  (forall h k, h < 18446744073709551616 -> k < len (enc_fh h) ->
+     exists t, dec_fh (take k (enc_fh h)) = (Err EShort, [], t)).
+Proof. exact xdr_truncated_lemma. Qed.
+
+Theorem C13_call_truncated : forall c k, call_ok c -> k < len (enc_call c) ->
+  exists t, dec_call (take k (enc_call c)) = (Err EShort, [], t).
+Proof. exact call_truncated_lemma. Qed.
+
+(* a truncated AUTH_SYS body is rejected: the empty one as "empty", every other proper prefix as short *)
+Theorem C13_authsys_truncated : forall a k, authsys_ok a -> k < len (enc_authsys a) ->
+  o_res (parse_authsys (take k (enc_authsys a))) = Err (if k =? 0 then EEmpty else EShort).
+Proof. exact parse_authsys_truncated. Qed.
+
+(* ======================= bounds: rejected before any allocation of that size ======================= *)
+(* Shape of every statement: (1) on EVERY input every allocation is at most the limit; (2) a declared length
+   above the limit gives ELimit with the stream left right behind the length word and a trace that holds only the
+   4-byte words read so far.  With the round trips this fixes the behaviour at limit-1 and limit (accepted,
+   C13_*_roundtrip has [len <= limit]) and at limit+1 (rejected, hypothesis [limit < declared]). *)
+
+Theorem C13_bounds_string :
+  (forall s, tr_le string_limit (o_trace (dec_string s))) /\
+  (forall s, 4 <= len s -> string_limit < be_dec (take 4 s) ->
+     dec_string s = (Err ELimit, drop 4 s, [Rd 4])).
+Proof. exact string_bounds_lemma. Qed.
+
+Theorem C13_bounds_opaque : forall limit, 4 <= limit ->
+  (forall s, tr_le limit (o_trace (dec_opaque limit s))) /\
+  (forall s, 4 <= len s -> limit < be_dec (take 4 s) ->
+     dec_opaque limit s = (Err ELimit, drop 4 s, [Rd 4])).
+Proof. exact opaque_bounds_lemma. Qed.
+
+(* file handle: > 64 rejected at once; <= 64 but not 8: the padded bytes are consumed (at most 64), then rejected *)
+Theorem C13_bounds_fh :
+  (forall s, tr_le fh_max_len (o_trace (dec_fh s))) /\
+  (forall s, 4 <= len s -> fh_max_len < be_dec (take 4 s) ->
+     dec_fh s = (Err ELimit, drop 4 s, [Rd 4])) /\
+  (forall n data rest, n <= fh_max_len -> n <> fh_len -> len data = n + pad_len n ->
+     dec_fh (enc_u32 n ++ data ++ rest) = (Err EBadLen, rest, [Rd 4] ++ rd (n + pad_len n))).
+Proof. exact fh_bounds_lemma. Qed.
+
+(* call header: credential and verifier bodies (auth body 400) *)
+Theorem C13_bounds_call :
+  (forall s, tr_le cred_limit (o_trace (dec_call s))) /\
+  (forall xid rv prog vers proc cf n rest,
+     u32 xid -> u32 rv -> u32 prog -> u32 vers -> u32 proc -> u32 cf -> u32 n -> cred_limit < n ->
+     dec_call (enc_u32 xid ++ enc_u32 rpc_call ++ enc_u32 rv ++ enc_u32 prog ++ enc_u32 vers ++ enc_u32 proc ++
+               enc_u32 cf ++ enc_u32 n ++ rest)
+     = (Err ELimit, rest, [Rd 4] ++ [Rd 4] ++ [Rd 4] ++ [Rd 4] ++ [Rd 4] ++ [Rd 4] ++ [Rd 4] ++ [Rd 4])) /\
+  (forall xid rv prog vers proc cf cb vf n rest,
+     u32 xid -> u32 rv -> u32 prog -> u32 vers -> u32 proc -> u32 cf -> len cb <= cred_limit -> u32 vf ->
+     u32 n -> verf_limit < n ->
+     dec_call (enc_u32 xid ++ enc_u32 rpc_call ++ enc_u32 rv ++ enc_u32 prog ++ enc_u32 vers ++ enc_u32 proc ++
+               enc_u32 cf ++ enc_opaque cb ++ enc_u32 vf ++ enc_u32 n ++ rest)
+     = (Err ELimit, rest, [Rd 4] ++ [Rd 4] ++ [Rd 4] ++ [Rd 4] ++ [Rd 4] ++ [Rd 4] ++ [Rd 4] ++
+                          opaque_trace (len cb) ++ [Rd 4] ++ [Rd 4])).
+Proof. exact call_bounds_lemma. Qed.
+
+(* AUTH_SYS: 16 auxiliary gids, machine name within the string limit.  (1) any body: allocations within the
+   name limit; (2) any accepted body has <= 16 gids and a name within the limit; (3) a count above 16 is
+   rejected and the gid array is never allocated; (4) an over-long name is rejected with no allocation at all *)
+Theorem C13_bounds_authsys :
+  (forall body, tr_le authsys_name_limit (o_trace (parse_authsys body))) /\
+  (forall body a rest t, parse_authsys body = (Ok a, rest, t) ->
+     len (a_gids a) <= authsys_max_gids /\ len (a_machine a) <= authsys_name_limit) /\
+  (forall stamp name uid gid n rest,
+     u32 stamp -> len name <= authsys_name_limit -> u32 uid -> u32 gid -> u32 n -> authsys_max_gids < n ->
+     parse_authsys (enc_u32 stamp ++ enc_opaque name ++ enc_u32 uid ++ enc_u32 gid ++ enc_u32 n ++ rest)
+     = (Err ELimit, rest, [] ++ ([] ++ al (len name)) ++ [] ++ [] ++ [] ++ [])) /\
+  (forall stamp n rest, u32 stamp -> u32 n -> authsys_name_limit < n ->
+     parse_authsys (enc_u32 stamp ++ enc_u32 n ++ rest) = (Err ELimit, rest, [] ++ [] ++ [])).
+Proof. exact authsys_bounds_lemma. Qed.
+
+(* record marking (record 1 MiB by default): (1) any stream: every fragment buffer and the result copy are within
+   the limit (4 = a header); (2) a returned record is within the limit; (3) a first header announcing more than
+   the limit is rejected before the fragment buffer exists; (4) the same at any later point of the record
+   (running total: acc = bytes accumulated so far); (5) the model's fuel is never exhausted *)
+Theorem C13_bounds_record :
+  (forall mx s, tr_le (N.max 4 (eff_max mx)) (o_trace (read_record mx s))) /\
+  (forall mx s r s' t, read_record mx s = (Ok r, s', t) -> len r <= eff_max mx) /\
+  (forall mx s, 4 <= len s -> eff_max mx < be_dec (take 4 s) mod last_flag ->
+     read_record mx s = (Err ELimit, drop 4 s, [Rd 4])) /\
+  (forall fuel emax acc s, 4 <= len s -> emax < len acc + be_dec (take 4 s) mod last_flag ->
+     rr (S fuel) emax acc s = (Err ELimit, drop 4 s, [Rd 4] ++ [])) /\
+  (forall mx s, o_res (read_record mx s) <> Err EFuel).
+Proof. exact record_bounds_lemma. Qed.
+
+(* ======================= record marking ======================= *)
+
+(* EVERY split of a record into fragments -- empty fragments allowed anywhere, also as the last one -- is
+   reassembled into the record, and the rest of the stream is left alone.  [frs] is the fragmentation,
+   [concat frs] the record. *)
+Theorem C13_fragments : forall mx frs rest,
+  frs <> [] -> len (concat frs) <= eff_max mx -> Forall (fun f => len f < last_flag) frs ->
+  read_record mx (enc_frags frs ++ rest) = (Ok (concat frs), rest, frags_trace 0 frs).
+Proof. exact fragments_lemma. Qed.
+
+(* the same, stated over the record r, for every limit below 2^31 (the default 1 MiB in particular): no
+   hypothesis on the individual fragments is needed *)
+Theorem C13_fragments_record : forall mx r frs rest,
+  eff_max mx < last_flag -> frs <> [] -> concat frs = r -> len r <= eff_max mx ->
+  dec_ok (read_record mx (enc_frags frs ++ rest)) = Some (r, rest).
+Proof. exact fragments_small_lemma. Qed.
+
+(* reader (writer r) = r for every record within the reader's limit and EVERY configured maximum fragment size
+   mf : Z (NewRecordMarkingWriterWithSize maps mf <= 0 and mf > 2^31-1 to the default) *)
+Theorem C13_write_read : forall mx mf r rest, len r <= eff_max mx ->
+  dec_ok (read_record mx (write_record mf r ++ rest)) = Some (r, rest).
+Proof. exact write_read_lemma. Qed.
+
+(* what the writer emits IS a fragmentation of its argument, with fragments within the maximum fragment size and,
+   for a non-empty record, no empty fragment *)
+Theorem C13_writer_shape : forall mf data,
+  exists frs, frs <> [] /\ concat frs = data /\ Forall (fun f => len f <= eff_frag mf) frs /\
+              (data <> [] -> Forall (fun f => 0 < len f) frs) /\ write_record mf data = enc_frags frs.
+Proof. exact writer_shape_lemma. Qed.
+
+(* ======================= non-vacuity ======================= *)
+Definition ex_bytes (n : N) (b : N) : bytes := repeat b (N.to_nat n).
+
+(* strings at limit-1 and limit are accepted, limit+1 is rejected with only the length word read *)
+Example C13_string_boundary :
+  len (ex_bytes 8191 65) <= string_limit /\ len (ex_bytes 8192 65) <= string_limit /\
+  has_byte 0 (ex_bytes 8192 65) = false /\
+  dec_string (enc_string (ex_bytes 8191 65) ++ [7]) = (Ok (ex_bytes 8191 65), [7], [Rd 4; Rd 8191; Rd 1]) /\
+  dec_string (enc_string (ex_bytes 8192 65) ++ [7]) = (Ok (ex_bytes 8192 65), [7], [Rd 4; Rd 8192]) /\
+  dec_string (enc_string (ex_bytes 8193 65) ++ [7]) = (Err ELimit, ex_bytes 8193 65 ++ [0; 0; 0; 7], [Rd 4]) /\
+  dec_string (enc_string [104; 0; 105] ++ [7]) = (Err ENul, [7], [Rd 4; Rd 3; Rd 1]).
+Proof. vm_compute. repeat split; discriminate. Qed.
+
+Example C13_fh_boundary :
+  dec_fh (enc_fh 18446744073709551615 ++ [9]) = (Ok 18446744073709551615, [9], [Rd 4; Rd 8]) /\
+  dec_fh (enc_u32 63 ++ ex_bytes 64 1 ++ [9]) = (Err EBadLen, [9], [Rd 4; Rd 64]) /\
+  dec_fh (enc_u32 64 ++ ex_bytes 64 1 ++ [9]) = (Err EBadLen, [9], [Rd 4; Rd 64]) /\
+  dec_fh (enc_u32 65 ++ ex_bytes 68 1 ++ [9]) = (Err ELimit, ex_bytes 68 1 ++ [9], [Rd 4]) /\
+  dec_fh (enc_u32 0 ++ [9]) = (Err EBadLen, [9], [Rd 4]).
+Proof. vm_compute. repeat split. Qed.
+
+Definition ex_call : call :=
+  mkCall 305419896 2 100003 3 1 1 (ex_bytes 399 7) 0 (ex_bytes 400 8).
+Example C13_call_nontrivial :
+  call_ok ex_call /\
+  dec_ok (dec_call (enc_call ex_call ++ [1; 2; 3])) = Some (ex_call, [1; 2; 3]) /\
+  o_trace (dec_call (enc_call ex_call)) =
+    [Rd 4; Rd 4; Rd 4; Rd 4; Rd 4; Rd 4; Rd 4; Rd 4; Rd 399; Rd 1; Rd 4; Rd 4; Rd 400] /\
+  (* credential of 401 bytes: rejected, eight words read *)
+  dec_call (enc_call (mkCall 1 2 3 4 5 1 (ex_bytes 401 7) 0 [])) =
+    (Err ELimit, ex_bytes 401 7 ++ [0; 0; 0] ++ enc_u32 0 ++ enc_u32 0,
+     [Rd 4; Rd 4; Rd 4; Rd 4; Rd 4; Rd 4; Rd 4; Rd 4]).
+Proof.
+  split; [unfold call_ok, u32; vm_compute; repeat split; discriminate|].
+  vm_compute. repeat split.
+Qed.
+
+Definition ex_authsys (k : N) : authsys := mkAuthSys 77 [104; 111; 115; 116; 0] 1000 100 (ex_bytes k 4294967295).
+Example C13_authsys_boundary :
+  authsys_ok (ex_authsys 16) /\
+  parse_authsys (enc_authsys (ex_authsys 15) ++ [1]) = (Ok (ex_authsys 15), [1], [Al 5; Al 60]) /\
+  parse_authsys (enc_authsys (ex_authsys 16) ++ [1]) = (Ok (ex_authsys 16), [1], [Al 5; Al 64]) /\
+  parse_authsys (enc_authsys (ex_authsys 17) ++ [1]) =
+    (Err ELimit, concat (map enc_u32 (ex_bytes 17 4294967295)) ++ [1], [Al 5]) /\
+  parse_authsys [] = (Err EEmpty, [], []).
+Proof.
+  split; [unfold authsys_ok, u32; cbn [ex_authsys a_stamp a_machine a_uid a_gid a_gids]; repeat split;
+          try (vm_compute; discriminate); repeat constructor|].
+  vm_compute. repeat split.
+Qed.
+
+(* a record split into five fragments, two of them empty (one of these the last), followed by the next record *)
+Example C13_fragments_nontrivial :
+  let frs := [[1; 2; 3]; []; [4]; [5; 6; 7; 8; 9]; []] in
+  frs <> [] /\ len (concat frs) <= eff_max reader_default_max /\ Forall (fun f => len f < last_flag) frs /\
+  read_record reader_default_max (enc_frags frs ++ [0; 0; 0; 1]) =
+    (Ok [1; 2; 3; 4; 5; 6; 7; 8; 9], [0; 0; 0; 1], [Rd 4; Rd 3; Rd 4; Rd 4; Rd 1; Rd 4; Rd 5; Rd 4; Al 9]) /\
+  (* limit 8: the fragment that would make 9 bytes is refused before its buffer is allocated *)
+  o_res (read_record 8 (enc_frags frs)) = Err ELimit /\
+  o_trace (read_record 8 (enc_frags frs)) = [Rd 4; Rd 3; Rd 4; Rd 4; Rd 1; Rd 4] /\
+  (* limit 9 accepts *)
+  o_res (read_record 9 (enc_frags frs)) = Ok [1; 2; 3; 4; 5; 6; 7; 8; 9].
+Proof.
+  cbv zeta. split; [discriminate|]. split; [vm_compute; discriminate|].
+  split; [repeat constructor|]. vm_compute. repeat split.
+Qed.
+
+(* the writer with maximum fragment size 4 on a 10-byte record: 4 + 4 + 2, last-fragment bit on the third *)
+Example C13_write_read_nontrivial :
+  write_record 4 [1; 2; 3; 4; 5; 6; 7; 8; 9; 10] =
+    [0; 0; 0; 4; 1; 2; 3; 4; 0; 0; 0; 4; 5; 6; 7; 8; 128; 0; 0; 2; 9; 10] /\
+  write_record 4 [] = [128; 0; 0; 0] /\
+  eff_frag 0 = 1048576 /\ eff_frag (-5) = 1048576 /\ eff_frag 2147483648 = 1048576 /\ eff_frag 7 = 7 /\
+  dec_ok (read_record 0 (write_record 4 [1; 2; 3; 4; 5; 6; 7; 8; 9; 10] ++ [42])) =
+    Some ([1; 2; 3; 4; 5; 6; 7; 8; 9; 10], [42]).
+Proof. vm_compute. repeat split. Qed.
+
+Print Assumptions C13_facts.
+Print Assumptions C13_u32_roundtrip.
+Print Assumptions C13_u64_roundtrip.
+Print Assumptions C13_opaque_roundtrip.
+Print Assumptions C13_string_roundtrip.
+Print Assumptions C13_fh_roundtrip.
+Print Assumptions C13_call_roundtrip.
+Print Assumptions C13_authsys_roundtrip.
+Print Assumptions C13_reply_roundtrip.
+Print Assumptions C13_truncated.
+Print Assumptions C13_call_truncated.
+Print Assumptions C13_authsys_truncated.
+Print Assumptions C13_bounds_string.
+Print Assumptions C13_bounds_opaque.
+Print Assumptions C13_bounds_fh.
+Print Assumptions C13_bounds_call.
+Print Assumptions C13_bounds_authsys.
+Print Assumptions C13_bounds_record.
+Print Assumptions C13_fragments.
+Print Assumptions C13_fragments_record.
+Print Assumptions C13_write_read.
+Print Assumptions C13_writer_shape.
